@@ -161,6 +161,10 @@ func c01LargeConfigs(thorough bool) []scen.P2Config {
 		{Sizes: []int{300000, 70001}, Slice: 4096, Blocks: 5, Class: "uniq", G: 3}, // files and recovery files well above 64 KiB (buffered I/O sizes)
 		{Sizes: []int{8 * 32766, 8, 5}, Slice: 8, Blocks: 2, Class: "uniq", G: 4},  // exactly 32768 slices: the format's limit (slice 8: no coincidental matches)
 		{Sizes: []int{8 * 32765, 8, 5}, Slice: 8, Blocks: 2, Class: "uniq", G: 2},  // 32767
+		// slice size exactly the length of the 16k-hash prefix (and its neighbours), with a file shorter than one slice; one block: no spare
+		{Sizes: []int{40000, 5000}, Slice: 16384, Blocks: 1, Class: "uniq", G: 2},
+		{Sizes: []int{40000, 5000}, Slice: 16380, Blocks: 1, Class: "uniq", G: 2},
+		{Sizes: []int{40000, 16384, 5000}, Slice: 16388, Blocks: 1, Class: "uniq", G: 2},
 	}
 	if thorough {
 		out = append(out,
